@@ -15,10 +15,11 @@ import CircuitModel.DriverMerge
 import CircuitModel.DriverManager
 import CircuitModel.DriverConsumers
 import CircuitModel.DriverGoWrap
+import CircuitModel.DriverTrace
 open CM
 
 def suites : List (String × (List (String × String) → List (String × String) → List String)) :=
-  [("rc", suiteRC), ("tc", suiteTC), ("rp", suiteRP), ("sd", suiteSD), ("circuit", suiteCircuit), ("opener", suiteOpener), ("closer", suiteCloser), ("merge", suiteMerge), ("manager", suiteManager), ("consumers", suiteConsumers), ("gowrap", suiteGoWrap)]
+  [("rc", suiteRC), ("tc", suiteTC), ("rp", suiteRP), ("sd", suiteSD), ("circuit", suiteCircuit), ("opener", suiteOpener), ("closer", suiteCloser), ("merge", suiteMerge), ("manager", suiteManager), ("consumers", suiteConsumers), ("gowrap", suiteGoWrap), ("tr-rc", suiteTrRC), ("tr-gauge", suiteTrGauge)]
 
 partial def readAll (h : IO.FS.Stream) (acc : Array String) : IO (Array String) := do
   let line ← h.getLine
